@@ -2,6 +2,7 @@ package getter
 
 import (
 	"encoding/json"
+	"fmt"
 	"os"
 	"testing"
 
@@ -16,20 +17,20 @@ func TestExplore(t *testing.T) {
 	rep := vh.NewReport()
 	d := newDriver(t, rep)
 	cases := []Case{
-		{ID: "e1", Type: "samples", Chain: []string{"shrex"}, Items: [][]string{{"correct"}}},
-		{ID: "e2", Type: "samples", Chain: []string{"shrex"}, Items: [][]string{{"other", "silent"}, {"correct"}}, Ctx: "deadline", CtxAt: "quiescent"},
-		{ID: "e3", Type: "row", Chain: []string{"shrex"}, Items: [][]string{{"other", "silent"}}, Ctx: "deadline", CtxAt: "quiescent"},
-		{ID: "e4", Type: "range", W: 4, RangeRows: 1, Chain: []string{"shrex"}, Items: [][]string{{"other:2", "correct"}}},
-		{ID: "e5", Type: "nd", Chain: []string{"shrex"}, Items: [][]string{{"notfound", "notfound"}}, Ctx: "cancelled", CtxAt: "quiescent"},
-		{ID: "e6", Type: "eds", Chain: []string{"shrex"}, Items: [][]string{{"trunc:1", "garble", "correct"}}},
-		{ID: "e7", Type: "samples", Chain: []string{"bitswap"}, Bs: [][]string{{"other", "correct"}, {"garble"}}, BlockStore: "datastore", Ctx: "deadline", CtxAt: "quiescent"},
-		{ID: "e8", Type: "samples", Chain: []string{"bitswap"}, Bs: [][]string{{"correct"}}, BlockStore: "edsstore"},
-		{ID: "e9", Type: "samples", Chain: []string{"store", "shrex", "bitswap"}, Items: [][]string{{"notfound"}}, Bs: [][]string{{"correct"}}, BlockStore: "edsstore-cached", Ctx: "deadline", CtxAt: "wall:1500"},
-		{ID: "e10", Type: "row", Chain: []string{"shrex", "bitswap"}, Items: [][]string{{"garble"}}, Bs: [][]string{{"correct"}}, BlockStore: "datastore", Ctx: "deadline", CtxAt: "wall:1500"},
+		{ID: "x3", Type: "range", W: 4, RangeRows: 1, Chain: []string{"store", "shrex", "bitswap"}, Items: [][]string{{}}, Bs: [][]string{{"correct"}}, Ctx: "deadline", CtxAt: "wall:1000"},
+		{ID: "x4", Type: "row", Chain: []string{"shrex", "bitswap"}, Items: [][]string{{"badstatus", "silent"}}, Bs: [][]string{{}}, Ctx: "cancelled", CtxAt: "wall:1000"},
 	}
-	for _, c := range cases {
-		o := d.runCase(c)
-		b, _ := json.Marshal(o)
-		t.Logf("%s %s %v items=%v bs=%v ctx=%s/%s\n   -> %s", c.ID, c.Type, c.Chain, c.Items, c.Bs, c.Ctx, c.CtxAt, b)
+	done := make(chan string, 64)
+	for k := 0; k < 24; k++ {
+		c := cases[k%2]
+		c.ID = fmt.Sprintf("%s_%d", c.ID, k)
+		go func() {
+			o := d.runCase(c)
+			b, _ := json.Marshal(o.Served)
+			done <- c.ID + " " + string(b) + " " + fmt.Sprint(o.OK, o.Millis)
+		}()
+	}
+	for k := 0; k < 24; k++ {
+		t.Log(<-done)
 	}
 }
